@@ -53,9 +53,13 @@ class TransportSetup(Contract):
         prices = {'c': H.real_arr('cts', Tc)}
         ctx = dict(g=g, R=R, df=df, self_obj=self_obj, prices=prices, Tc=Tc, vals=vals)
         if case['tg'] == 'preset':
+            # the grid was set before (set_timegrid) and is NOT passed again; meanwhile ANOTHER asset sharing the grid object has
+            # overwritten its derived cache (other window, other wacc): the set-up derives the asset's own part anew (C10; defect D42 of
+            # the pinned tree: the stale cache was used)
             self_obj.set('timegrid', g)
-            g.set('discount_factors', Arr(g.get('T'), lambda k: df(lift(k))))
-            g.set('restricted', R)
+            pdf = disc_fun(H, 'stale')
+            g.set('restricted', mk_restricted(H, g, pfx='stale', df=pdf))
+            g.set('discount_factors', Arr(g.get('T'), lambda k: pdf(lift(k))))
             tg_arg = None
         elif case['tg'] == 'same':
             # the asset already holds this very grid object, whose derived cache was overwritten by ANOTHER asset since
@@ -193,6 +197,9 @@ class TransportSetup(Contract):
             call = lambda: a.setup_optim_problem(prices, tg, case['costs_only'])
         elif case['tg'] == 'preset':
             a.set_timegrid(tg)
+            _pts = list(tg.timepoints) + [tg.end]
+            _other = eao.assets.SimpleContract(name='other asset', nodes=eao.assets.Node('elsewhere'), start=_pts[min(1, len(_pts) - 1)], end=_pts[-1], wacc=0.37)
+            _other.set_timegrid(tg)      # overwrites the shared grid's restricted part and discount factors
             call = lambda: a.setup_optim_problem(prices, None, case['costs_only'])
         else:
             call = lambda: a.setup_optim_problem(prices, tg, case['costs_only'])
